@@ -99,13 +99,13 @@ def finishTemp (w : World) (d : Nat) (res : Res Unit) : World × Out :=
   match res with
   | .ok _ hp r => (w.put hp d (some r), .ok .unit)
   | .err hp r => match releaseRepr hp r with
-    | .ok hp' => ({ w with heap := hp' }, .panicAlloc)
+    | .ok hp' => (w.put hp' d none, .panicAlloc)
     | .error u => (w, .ub u)
   | .pcb hp r => match releaseRepr hp r with
-    | .ok hp' => ({ w with heap := hp' }, .panicCb)
+    | .ok hp' => (w.put hp' d none, .panicCb)
     | .error u => (w, .ub u)
   | .pidx hp r => match releaseRepr hp r with
-    | .ok hp' => ({ w with heap := hp' }, .panicIdx)
+    | .ok hp' => (w.put hp' d none, .panicIdx)
     | .error u => (w, .ub u)
   | .ub u => (w, .ub u)
 
@@ -230,7 +230,7 @@ def step (rf : Refuse) (w : World) : Op → World × Out
     match displayLoop rf w.statics w.heap (.inl inlEmpty) pieces with
     | .ok true hp r => (w.put hp d (some r), .ok .unit)
     | .ok false hp r => match releaseRepr hp r with
-      | .ok hp' => ({ w with heap := hp' }, .errFmt)
+      | .ok hp' => (w.put hp' d none, .errFmt)
       | .error u => (w, .ub u)
     | .err hp r => finishTemp w d (.err hp r)
     | .pcb hp r => finishTemp w d (.pcb hp r)
